@@ -16,4 +16,6 @@ MUTANTS = [
     dict(name="cycle-check-after-descent", file=U, expect="R16.2",
          old="        obj_id = id(obj)\n        if obj_id in visited:\n            # Return None for circular refs (JSON-safe, avoids infinite recursion)\n            return None\n",
          new="        obj_id = id(obj)\n"),
+    dict(name="raw-dict-fallback-for-any-str-keyed-dict", file="core/cattrs_converter.py", expect="R16.8",
+         old="            if dict_args == (str, Any):", new="            if dict_args and (dict_args[0] is str or dict_args[1] is Any):"),
 ]
